@@ -391,8 +391,12 @@ def run_rpf(case: Dict[str, Any], tmp: str) -> Dict[str, Any]:
         import multiprocessing
         bystander = multiprocessing.Process(target=time.sleep, args=(case["bystander_ms"] / 1000,))
         bystander.start()
-    obs = _guarded(lambda: base.parallel_function(real_task, iterable, cpus=cpus, timeout=timeout),
-                   case.get("limit", 30.0))
+    calls_s = sum(d for d, mode, _v in tasks if d < 4000) / 1000
+    limit = float(case.get("limit", 10.0 + 3 * calls_s))
+    obs = _guarded(lambda: base.parallel_function(real_task, iterable, cpus=cpus, timeout=timeout), limit)
+    if obs.get("blocked"):
+        obs["limit_s"] = limit
+        obs["calls_s"] = calls_s
     if bystander is not None:
         obs["bystander_exited_during_batch"] = not bystander.is_alive()
         bystander.join(5.0)
@@ -591,10 +595,20 @@ def main() -> int:
     out = sys.stdout
     devnull = open(os.devnull, "w")
     sys.stderr = devnull          # worker tracebacks / child stderr echoes are not observables
+    budget = float(os.environ.get("ASV_C18_BUDGET", "240"))
+    begun = time.monotonic()
+    stuck = 0
     with tempfile.TemporaryDirectory(prefix="asv_c18_") as tmp:
         for case in cases:
+            if stuck and time.monotonic() - begun > budget:
+                # something already hung on this tree: do not wait out one limit after another
+                out.write(json.dumps({"skipped": True}) + "\n")
+                out.flush()
+                continue
             try:
                 obs = run_case(case, tmp)
+                if obs.get("blocked") or (isinstance(obs.get("error"), dict) and obs["error"].get("blocked")):
+                    stuck += 1
             except BaseException as exc:  # pylint: disable=broad-except
                 import traceback
                 obs = {"harness_error": f"{type(exc).__name__}: {exc}", "trace": traceback.format_exc()[-800:]}
